@@ -330,6 +330,7 @@ type guardRec struct {
 	obj  *omap
 	mu   *value
 	name string
+	ro   bool // shared state without a lock: written only before the associations start (any later write is a violation)
 }
 
 func mutexLock(i *interpreter, fr *frame, fn *ssa.Function, args []value) value {
@@ -557,7 +558,11 @@ func (i *interpreter) guardCheck(addr *value, write bool) {
 	}
 	for _, g := range i.w.guards {
 		if g.cell == addr {
-			if !i.w.held[g.mu] {
+			if g.ro {
+				if write {
+					i.w.lockViolation(g.name, write)
+				}
+			} else if !i.w.held[g.mu] {
 				i.w.lockViolation(g.name, write)
 			}
 		}
@@ -570,7 +575,11 @@ func (i *interpreter) guardCheckObj(m *omap, write bool) {
 	}
 	for _, g := range i.w.guards {
 		if g.obj != nil && g.obj == m {
-			if !i.w.held[g.mu] {
+			if g.ro {
+				if write {
+					i.w.lockViolation(g.name, write)
+				}
+			} else if !i.w.held[g.mu] {
 				i.w.lockViolation(g.name, write)
 			}
 		}
